@@ -58,9 +58,11 @@ public:
     {
         int mul = 1;
 
+        // the coefficients of the product are signed: one extra bit so that
+        // every one of them lies strictly between -2^(N-1) and 2^(N-1)
         unsigned int N = bit_length(std::min(a.degree() + 1, b.degree() + 1))
                          + bit_length(a.max_abs_coef())
-                         + bit_length(b.max_abs_coef());
+                         + bit_length(b.max_abs_coef()) + 1;
 
         integer_class full = integer_class(1), temp, res;
         full <<= N;
